@@ -268,6 +268,8 @@ def one_step(ch, mgr, w, g, op: str, tag: str, strong_lock: bool, preempt: bool 
                 raise Violation("bytes-differ", "get granted with bytes different from what was written")
             if rdid not in ds.ongoing_reads:
                 raise Violation("get-reader-not-registered")
+            if ds.is_pageoutable(w.now):
+                raise Violation("dataset-just-handed-to-a-reader-is-evictable", f"{key}: a reader got it this instant, yet it counts as page-out-able")
         ch.note("op", f"get({key})->{err or 'granted'}")
     elif op == "purge":
         key = ch.choose(keys + ["knew"], f"{tag}key")
